@@ -40,6 +40,9 @@ func budget(tier string) time.Duration {
 	return 150 * time.Second
 }
 
+// ExtraCommands are additional sub-commands registered by property files.
+var ExtraCommands = map[string]func() int{}
+
 // SelfCheck is installed by the props package.
 var SelfCheck func() int
 
@@ -48,6 +51,9 @@ func Main(args []string) int {
 	if len(args) < 1 {
 		fmt.Fprintln(os.Stderr, "usage: vcheck <ID> quick|thorough | replay <file> | worker ... | list")
 		return 2
+	}
+	if f, ok := ExtraCommands[args[0]]; ok {
+		return f()
 	}
 	switch args[0] {
 	case "list":
